@@ -135,7 +135,7 @@ func (w *c12world) start(sl *c12slot) bool {
 	c := w.c
 	sl.gen++
 	sl.tok = &simrt.Node{Name: fmt.Sprintf("n%d.%d", sl.idx, sl.gen)}
-	sl.h = &c12handle{st: w.st, slot: sl, tok: sl.tok, delivered: map[string]int{}, ownWrite: map[string]int{}}
+	sl.h = &c12handle{st: w.st, slot: sl, tok: sl.tok, delivered: map[string]int{}, applied: map[string]int{}, ownWrite: map[string]int{}}
 	sl.touch = map[string]*c12touch{}
 	sl.lastQueryPermuted = false
 	da, err := allocator.NewDistributedAllocator(w.cfg(), sl.h)
@@ -218,7 +218,8 @@ type c12opres struct {
 	preRec   string
 	preOK    bool
 	withMAC  bool
-	preDeliv int // notifications for sub delivered to the node before the call
+	preDeliv int  // notifications for sub delivered to the node before the call
+	preBusy  bool // one of them was still being applied
 }
 
 // pre records what memory and store said about the subscriber before the call.
@@ -228,6 +229,7 @@ func (w *c12world) pre(r *c12opres) {
 	r.preRec = w.record(r.sub)
 	r.preOK = r.preMem == r.preRec
 	r.preDeliv = sl.h.delivered[r.sub]
+	r.preBusy = sl.h.delivered[r.sub] != sl.h.applied[r.sub]
 }
 
 // launch starts one API call on a node as a fenced task.
